@@ -6,6 +6,7 @@ import (
 	"context"
 	"strconv"
 	"sync/atomic"
+	"time"
 )
 
 // Verification-only hooks (build tag `verif`). Nothing here is compiled into
@@ -107,4 +108,14 @@ func verifYield(point string, enabled func() bool) {
 func verifYieldAt(point string, at string) { verifYield(point+"@"+at, nil) }
 func verifYieldCh(point string, ch Channel) {
 	verifYield(point+"@"+strconv.FormatInt(ch.ID(), 10), nil)
+}
+
+// VerifReadIdleHandler / VerifWriteIdleHandler build the idle handlers with an
+// idle time below the public constructors' one-second minimum, so that a
+// harness can time many idle periods.
+func VerifReadIdleHandler(idleTime time.Duration) ChannelInboundHandler {
+	return &readIdleHandler{idleTime: idleTime}
+}
+func VerifWriteIdleHandler(idleTime time.Duration) ChannelOutboundHandler {
+	return &writeIdleHandler{idleTime: idleTime}
 }
